@@ -584,7 +584,7 @@ func (c *Context) Respond(rw http.ResponseWriter, r *http.Request, produces []st
 		prod, ok := producers[normalizeOffer(format)]
 		if !ok {
 			prods := c.api.ProducersFor(normalizeOffers([]string{c.api.DefaultProduces()}))
-			pr, ok := prods[c.api.DefaultProduces()]
+			pr, ok := prods[normalizeOffer(c.api.DefaultProduces())] // keys are media types without parameters
 			if !ok {
 				panic(errors.New(http.StatusInternalServerError, cantFindProducer(format)))
 			}
@@ -638,7 +638,7 @@ func (c *Context) Respond(rw http.ResponseWriter, r *http.Request, produces []st
 		if !ok {
 			if !ok {
 				prods := c.api.ProducersFor(normalizeOffers([]string{c.api.DefaultProduces()}))
-				pr, ok := prods[c.api.DefaultProduces()]
+				pr, ok := prods[normalizeOffer(c.api.DefaultProduces())] // keys are media types without parameters
 				if !ok {
 					panic(errors.New(http.StatusInternalServerError, cantFindProducer(format)))
 				}
